@@ -73,6 +73,47 @@ class Recorder(object):
         self.log.append(("E", p, self._pid()))
 
 
+from contextlib import contextmanager
+
+
+@contextmanager
+def critical_section_yields(world):
+    """Let Engine A suspend a simulated process INSIDE a tile's read-modify-write: the read and the
+    write of PyramidIO become yield points, and filelock's wait between two lock attempts becomes a
+    yield instead of a sleep (the lock itself stays the real filelock.SoftFileLock on real files)."""
+    import filelock._api as fapi
+    from toasty.pyramid import PyramidIO
+
+    orig_read, orig_write, orig_time = PyramidIO.read_image, PyramidIO.write_image, fapi.time
+
+    class _Time(object):
+        def __getattr__(self, n):
+            return getattr(orig_time, n)
+
+        def sleep(self, s):
+            if world.current_pid() is None:
+                return orig_time.sleep(s)
+            world._yield(("ro", "lock-wait"))
+
+    def read_image(self, pos, *a, **k):
+        world.checkpoint("tile-read")
+        return orig_read(self, pos, *a, **k)
+
+    def write_image(self, pos, *a, **k):
+        world.checkpoint("tile-write")
+        return orig_write(self, pos, *a, **k)
+
+    PyramidIO.read_image = read_image
+    PyramidIO.write_image = write_image
+    fapi.time = _Time()
+    try:
+        yield
+    finally:
+        PyramidIO.read_image = orig_read
+        PyramidIO.write_image = orig_write
+        fapi.time = orig_time
+
+
 def run_sim(fn, sched, world=None):
     """Run fn() as the caller process of a simulated world. Returns (world, result)."""
     w = world or SimWorld(sched)
@@ -87,6 +128,10 @@ def schedules(draw, max_size=300):
         "choices": draw(st.lists(st.integers(0, 15), max_size=max_size)),
         "every": draw(st.sampled_from([1, 1, 2, 3, 7, 20])),
         "policy": draw(st.integers(0, 7)),
+        "freeze": [
+            [draw(st.integers(0, 5)), draw(st.integers(0, 200)), draw(st.integers(5, 120))]
+            for _ in range(draw(st.sampled_from([0, 0, 1, 2])))
+        ],
     }
 
 
